@@ -454,7 +454,8 @@ class HTTPConnection(_HTTPConnection):
                 if isinstance(chunk, str):
                     chunk = chunk.encode("utf-8")
                 if chunked:
-                    self.send(b"%x\r\n%b\r\n" % (len(chunk), chunk))
+                    # The chunk size is a number of bytes, which len() is not for every buffer.
+                    self.send(b"%x\r\n%b\r\n" % (memoryview(chunk).nbytes, chunk))
                 else:
                     self.send(chunk)
 
